@@ -58,6 +58,10 @@ Section FoldFacts.
     apply setenv_consistent_f; [exact (proj2 (split_kv_inv a k v E))|exact Hc].
   Qed.
 
+  Theorem reachable_consistent_f : forall vars args,
+    consistent_f (cmd_env_f fold args (setup_env_f fold vars)).
+  Proof. intros vars args. exact (cmd_env_consistent_f args _ (setup_consistent_f vars)). Qed.
+
   (* the argument does not assign any spelling of k *)
   Definition not_assign_f (k a : bytes) : Prop :=
     forall k' v', split_kv a = Some (k', v') -> fold k' <> fold k.
